@@ -71,6 +71,8 @@ def run(ctx):
                               "read_then_commit_part", seed_base=810000)
     engine_check.scenario_run(ctx, "scen_engine.attr_commit_builder", MONITORS, nontrivial, RULE, 16, 300, 14,
                               "attribute_op_then_commit_part", seed_base=820000)
+    engine_check.scenario_run(ctx, "scen_engine.placeholder_follow_builder", MONITORS, nontrivial, RULE, 16, 300, 12,
+                              "placeholder_follower_part", seed_base=830000)
 
 
 def search(ctx, broken):
